@@ -35,6 +35,8 @@ type C18Params struct {
 	Plan     simrt.Plan `json:"plan"`
 }
 
+var leadingZeroK = regexp.MustCompile(`-chain0[0-9]`)
+
 // the statement's grammar
 var c18ArgRe = regexp.MustCompile(`^([0-9]{6})(?:-chain([0-9]+))?(?:\.ra)?$`)
 
@@ -287,6 +289,9 @@ func evalC18(sc *Scenario, sim *Sim) ([]Violation, bool, string) {
 			}
 			break
 		}
+		if leadingZeroK.MatchString(p.Arg) && r.Exit != 0 {
+			break // whether K may be written with leading zeros is not fixed by the statement: a rejection is not judged
+		}
 		if r.Exit != 0 && !(p.Cmd == "compare" && strings.Contains(string(r.Stdout), "has changed!")) {
 			// K beyond the rule's chain is a legitimate failure (C16); everything else must be accepted
 			if !(p.Link > 3 && (p.Cmd == "update" || p.Cmd == "compare")) {
@@ -296,8 +301,14 @@ func evalC18(sc *Scenario, sim *Sim) ([]Violation, bool, string) {
 		}
 		got := readPaths()
 		found := false
+		altFile := ""
+		if leadingZeroK.MatchString(p.Arg) {
+			// K written with leading zeros: the file named as written and the file named with the plain number are both defensible
+			m := c18ArgRe.FindStringSubmatch(p.Arg)
+			altFile = fmt.Sprintf("crs/regex-assembly/%s-chain%d.ra", m[1], p.Link)
+		}
 		for _, g := range got {
-			if g == p.File {
+			if g == p.File || (altFile != "" && g == altFile) {
 				found = true
 			} else if !strings.Contains(g, "/include/") {
 				add("file", "wrong-file-"+p.Cmd, fmt.Sprintf("argument %q must resolve to %s but %s was read", p.Arg, p.File, g), "")
@@ -345,7 +356,10 @@ func evalC18(sc *Scenario, sim *Sim) ([]Violation, bool, string) {
 			if len(roots) == 0 {
 				add("root", "no-root-used", fmt.Sprintf("the command did not open the configuration below the expected root %q (exit %d)", p.Root, r.Exit), clip(r.Stderr))
 			}
-			if r.Exit != 0 && !(p.Cmd == "compare" && strings.Contains(string(r.Stdout), "has changed!")) {
+			if leadingZeroK.MatchString(p.Arg) && r.Exit != 0 {
+			break // whether K may be written with leading zeros is not fixed by the statement: a rejection is not judged
+		}
+		if r.Exit != 0 && !(p.Cmd == "compare" && strings.Contains(string(r.Stdout), "has changed!")) {
 				add("root", "fails-in-valid-root", fmt.Sprintf("the command fails (exit %d) although the root %q resolves", r.Exit, p.Root), clip(r.Stderr))
 			}
 		} else if r.Exit == 0 {
